@@ -718,9 +718,12 @@ MANIFEST = {
              "evaluator: exhaustive enumeration of all two-operator (thorough: "
              "three-operator) parenthesis-free skeletons over every shared binary, unary, "
              "comparison, logical and conditional operator, special call/subscript/"
-             "attribute/tuple forms, random rendered mini-ASTs, and damaged strings that "
-             "must raise ParseError; the Python-AST importer is compared on the same "
-             "strings by value and by normalised structure."),
+             "attribute/tuple forms, random rendered mini-ASTs, the same token sequences "
+             "with other whitespace and literal spellings (certified by Python's tokenize), "
+             "and damaged strings that must raise ParseError; the Python-AST importer is "
+             "compared on the same strings by value and by normalised structure. Values are "
+             "compared on integer boxes and on float environments where + and * are visibly "
+             "non-associative; the blank-free spelling of each string is parsed first."),
     "note": ("Trusted: CPython compile/eval, pbt/refsem.py for the value of the parsed "
              "tree, pbt/pysyntax.py only for producing candidate strings (Python decides "
              "what they mean)."),
